@@ -138,6 +138,12 @@ def _apply_op(g, op, env):
   elif k == "setfield":
     l = find_by_text(g, op[1])
     l.set(op[2], op[3])
+  elif k == "hadd":
+    # header.add(tag, value[, datatype])
+    if op[3] is None:
+      g.header.add(op[1], op[2])
+    else:
+      g.header.add(op[1], op[2], op[3])
   elif k == "readd":
     # the most recently removed Line OBJECT with that text is added again
     cand = [l for l in env.gone if not l.is_connected() and
@@ -181,6 +187,9 @@ def op_to_py(op):
   if k == "setfield":
     return "[l for l in g.lines if str(l) == {!r}][0].set({!r}, {!r})".format(
         op[1], op[2], op[3])
+  if k == "hadd":
+    return "g.header.add({!r}, {!r}{})".format(
+        op[1], op[2], "" if op[3] is None else ", {!r}".format(op[3]))
   if k == "readd":
     return ("g.add_line(removed[{!r}])   # the Line object removed earlier "
             "(keep it: removed[str(l)] = l before g.rm)").format(op[1])
